@@ -135,6 +135,15 @@ func main() {
 				if r.Intn(6) == 0 {
 					pre = big.NewInt(int64(-r.Intn(3)))
 				}
+				if r.Intn(3) == 0 {
+					// machine-word boundaries: values just below / at / above 2^64, 2^63, 2^32 with small precisions
+					word := func() *big.Int {
+						v := pow2([]int{64, 64, 64, 63, 32, 128}[r.Intn(6)])
+						return v.Sub(v, big.NewInt(int64(r.Intn(2001)-1000)))
+					}
+					up, down = word(), word()
+					pre = big.NewInt([]int64{1, 2, 3, 17, 1000, 1000000000, 4294967296}[r.Intn(7)])
+				}
 				emit(fmt.Sprintf("ceilto up=%s down=%s pre=%s", up, down, pre), try(func() string {
 					b := hubtypes.NewBandwidth(sdkmath.NewIntFromBigInt(up), sdkmath.NewIntFromBigInt(down)).CeilTo(sdkmath.NewIntFromBigInt(pre))
 					return "ok " + b.Upload.String() + " " + b.Download.String()
@@ -162,6 +171,50 @@ func main() {
 				}))
 			}
 		case "C17":
+			if r.Intn(6) == 0 {
+				// the repository's decoders on keys built by its own constructors (addresses up to 255 bytes)
+				mk := func() []byte {
+					ln := []int{1, 2, 20, 32, 127, 128, 253, 254, 255}[r.Intn(9)]
+					bz := make([]byte, ln)
+					r.Read(bz)
+					return bz
+				}
+				a, b := mk(), mk()
+				i, j := []uint64{0, 1, 255, 256, 1<<32 - 1, 1 << 32, 1<<63 - 1, 1 << 63, 1<<64 - 1}[r.Intn(9)], uint64(r.Int63())
+				t := boundaryTime()
+				sec, ns := new(big.Int), new(big.Int)
+				sec.DivMod(t, big.NewInt(1000000000), ns)
+				tm := time.Unix(sec.Int64(), ns.Int64()).UTC()
+				fn := []string{"subscription.IDFromPayoutForAccountByNodeKey", "subscription.IDFromSubscriptionForAccountKey", "subscription.AccAddrFromSubscriptionForAccountKey",
+					"subscription.IDFromPayoutForNextAtKey", "session.IDFromSessionForAllocationKey", "session.IDFromSessionForAccountKey", "node.AddressFromNodeForPlanKey",
+					"node.AddressFromNodeForInactiveAtKey", "plan.IDFromPlanForProviderKey", "subscription.IDFromSubscriptionForInactiveAtKey"}[r.Intn(10)]
+				emit(fmt.Sprintf("dec f=%s t=%s a=%s b=%s i=%d j=%d", fn, t.String(), hx(a), hx(b), i, j), try(func() string {
+					switch fn {
+					case "subscription.IDFromPayoutForAccountByNodeKey":
+						return fmt.Sprintf("ok %d", subscriptiontypes.IDFromPayoutForAccountByNodeKey(subscriptiontypes.PayoutForAccountByNodeKey(a, b, i)))
+					case "subscription.IDFromSubscriptionForAccountKey":
+						return fmt.Sprintf("ok %d", subscriptiontypes.IDFromSubscriptionForAccountKey(subscriptiontypes.SubscriptionForAccountKey(a, i)))
+					case "subscription.AccAddrFromSubscriptionForAccountKey":
+						return "ok " + hx(subscriptiontypes.AccAddrFromSubscriptionForAccountKey(subscriptiontypes.SubscriptionForAccountKey(a, i)))
+					case "subscription.IDFromPayoutForNextAtKey":
+						return fmt.Sprintf("ok %d", subscriptiontypes.IDFromPayoutForNextAtKey(subscriptiontypes.PayoutForNextAtKey(tm, i)))
+					case "session.IDFromSessionForAllocationKey":
+						return fmt.Sprintf("ok %d", sessiontypes.IDFromSessionForAllocationKey(sessiontypes.SessionForAllocationKey(i, a, j)))
+					case "session.IDFromSessionForAccountKey":
+						return fmt.Sprintf("ok %d", sessiontypes.IDFromSessionForAccountKey(sessiontypes.SessionForAccountKey(a, i)))
+					case "node.AddressFromNodeForPlanKey":
+						return "ok " + hx(nodetypes.AddressFromNodeForPlanKey(nodetypes.NodeForPlanKey(i, a)))
+					case "node.AddressFromNodeForInactiveAtKey":
+						return "ok " + hx(nodetypes.AddressFromNodeForInactiveAtKey(nodetypes.NodeForInactiveAtKey(tm, a)))
+					case "plan.IDFromPlanForProviderKey":
+						return fmt.Sprintf("ok %d", plantypes.IDFromPlanForProviderKey(plantypes.PlanForProviderKey(a, i)))
+					case "subscription.IDFromSubscriptionForInactiveAtKey":
+						return fmt.Sprintf("ok %d", subscriptiontypes.IDFromSubscriptionForInactiveAtKey(subscriptiontypes.SubscriptionForInactiveAtKey(tm, i)))
+					}
+					return "bad"
+				}))
+				continue
+			}
 			if r.Intn(3) == 0 {
 				// the repository's own key constructors on boundary arguments (all component shapes:
 				// time|addr, time|id, id|addr, addr|id, addr|addr|id, id|addr|id, addr, time)
